@@ -266,8 +266,10 @@ def replay0(rec):
     res.append(('C02.rows' if m['kind'] == 'DC' else 'C01.a', st, det))
 
     # ---- declared constraints (C04): per cid bag of slacks
+    infcids = {pi['cid'] for pi in pred.get('inf', [])}
     for pc in pred['cons']:
         cid = pc['cid']
+        if cid in infcids: continue
         got = by_cid.get(cid, {'eq': [], 'ineq': []})
         iseq = pc['rel'] == 'eq'
         req = [s for inst in pc['inst'] if not inst['const'] for s in inst['s']]
@@ -276,6 +278,11 @@ def replay0(rec):
         if iseq and got['ineq']: st, det = 'mismatch', 'equality constraint produced inequality rows'
         if not iseq and got['eq']: st, det = 'mismatch', 'inequality constraint produced equality rows'
         res.append(('C04.rows:' + cid, st, det))
+    for pi in pred.get('inf', []):
+        got = by_cid.get(pi['cid'], {'eq': [], 'ineq': []})
+        st, det = bag_compare(got['ineq'], pi['s'])
+        if got['eq']: st, det = 'mismatch', 'inf constraint produced equality rows'
+        res.append(('C15.rows:' + pi['cid'], st, det[:300]))
     known = {pc['cid'] for pc in pred['cons']}
     for cid in by_cid:
         if cid is not None and cid not in known:
